@@ -357,6 +357,10 @@ def judge(sc, rec):
         allowed = set(ALLOWED[fk])
         if fk == "tls-garbage" and any(p["fault"] and p["fault"].get("depth") == 0 for p in rec["pipes"]):
             allowed = set(ALLOWED["garbage"])  # no TLS session existed yet at that offset (CONNECT / SOCKS reply): plain malformed peer data
+            if kind in TLS_KINDS:
+                # ... and if the negotiation reply was complete at that offset, the bytes are read by the TLS handshake that follows it: a failed
+                # handshake is a ConnectError (which of the two readers gets them is a matter of timing)
+                allowed.add("ConnectError")
         if refusal:
             allowed.add("ProxyError")
         if kind.startswith("socks") and fk in ("stall", "truncate", "reset"):
